@@ -1,6 +1,7 @@
 //! Channels of the line protocol (DESIGN Appendix B).
 pub mod build;
 pub mod dec;
+pub mod disas;
 pub mod load;
 pub mod parse;
 pub mod reflect;
@@ -23,6 +24,9 @@ pub fn respond(line: &str) -> String {
         "build" => build::build(rest),
         "buildrt" => build::buildrt(rest),
         "reflect" => reflect::reflect(rest),
+        "disasop" => disas::disasop(rest),
+        "disasinst" => disas::disasinst(rest),
+        "disasbin" => disas::disasbin(rest),
         "idmut" => reflect::idmut(rest),
         "loadbin" => load::loadbin(rest),
         _ => "bad-request".to_string(),
